@@ -414,7 +414,7 @@ template <class G> struct Monitor {
         uint64_t hh = n0;
         for (unsigned step = 0; step < len; ++step) {
             Op op = gen(r, s, pp, style, step, len, cfg.maxN, exact);
-            bool noop = s.isNoop(op);
+            bool noop = s.isNoop(op) && (op.kind == ADD || op.kind == REMOVE); // re-adding an existing edge / removing an absent one changes nothing
             std::vector<std::vector<VertexIndex>> before;
             if (noop) before = orderedLists(s.g);
             if (op.kind == SETW) {
@@ -510,12 +510,30 @@ template <class G> struct Monitor {
             ++calls; ++callsByKind[op.kind];
         }
     }
-    bool eqAll(const G &a, const G &b, bool want, const char *what, const std::string &ctx) {
+    // The verdict operator== must give is computed from what the two graphs OBSERVABLY are (vertices, hasEdge for every
+    // pair, label / weight / multiplicity of every edge) - not from what their histories were meant to denote - so that a
+    // defect in a mutator (another property's business) does not show up here as a wrong ==.
+    static bool observablyEqual(const G &a, const G &b) {
+        if (a.getSize() != b.getSize()) return false;
+        size_t n = a.getSize();
+        for (VertexIndex i = 0; i < n; ++i)
+            for (VertexIndex j = 0; j < n; ++j) {
+                bool ha = a.hasEdge(i, j);
+                if (ha != b.hasEdge(i, j)) return false;
+                if (ha && a.getEdgeWeight(i, j, false) != b.getEdgeWeight(i, j, false)) return false;
+            }
+        return true;
+    }
+    // byConstruction: what the generator intended (equal routes / a perturbed copy); only used for the coverage counters
+    bool eqAll(const G &a, const G &b, bool byConstruction, const char *what, const std::string &ctx) {
+        bool want = observablyEqual(a, b);
         bool r1 = (a == b), r2 = (b == a), n1 = (a != b), n2 = (b != a);
         R.count(want ? "equality_checks_expected_equal" : "equality_checks_expected_unequal");
+        if (want != byConstruction) R.count("pairs_whose_observable_relation_differs_from_the_intended_one");
         if (r1 != want || r2 != want || n1 == want || n2 == want) {
             std::ostringstream o;
-            o << what << ": expected " << (want ? "equal" : "unequal") << "; a==b:" << r1 << " b==a:" << r2 << " a!=b:" << n1 << " b!=a:" << n2 << "; " << ctx;
+            o << what << ": the two graphs are observably " << (want ? "equal" : "different") << " (size, hasEdge for every pair, value on every edge) but a==b:" << r1
+              << " b==a:" << r2 << " a!=b:" << n1 << " b!=a:" << n2 << "; " << ctx;
             R.violation(cls + "/operator==/" + what, o.str());
             return false;
         }
@@ -586,6 +604,7 @@ template <class G> struct Monitor {
         if (!eqAll(A.g, B.g, true, "two-histories-same-graph", ctx)) return;
         if (!eqAll(A.g, C.g, true, "history-vs-fresh-build", ctx)) return;
         if (!eqAll(B.g, C.g, true, "history-vs-fresh-build", ctx)) return;
+        std::string snapB = snapshot(B.g);
         G D(B.g);
         G E(0);
         E = A.g;
@@ -630,10 +649,8 @@ template <class G> struct Monitor {
         if (!eqAll(D, A.g, false, pdesc.c_str(), ctx)) return;
         if (!eqAll(D, B.g, false, "mutated-copy-vs-source", ctx)) return;
         if (!eqAll(B.g, A.g, true, "source-after-copy-mutated", ctx)) return;
-        std::string e = checkStructure(B.g, B.m.expect(), oc, true);
-        if (e.empty()) e = checkWeights(B, true);
-        if (!e.empty()) {
-            R.violation(cls + "/copy/source-changed-after-mutating-copy", e);
+        if (snapshot(B.g) != snapB) {
+            R.violation(cls + "/copy/source-changed-after-mutating-copy", "the source graph's observable state changed when its copy was mutated; before: " + snapB + " after: " + snapshot(B.g));
             return;
         }
         if (sub < 6 && R.samples.size() < 6)
